@@ -612,6 +612,8 @@ type docDesc struct {
 	Type    string `json:"type,omitempty"`
 	Text    string `json:"text,omitempty"`
 	Denotes string `json:"denotes,omitempty"`
+	IsNum   bool   `json:"is_json_number,omitempty"`
+	Canon   bool   `json:"canonical,omitempty"`
 }
 
 type harness struct {
@@ -824,7 +826,7 @@ func (h *harness) addNum(t intType, isNum bool, text string, denotes *big.Int, c
 		strs = []string{text}
 	}
 	term := fmt.Sprintf("CNum %v %d %v %s %s %v %s %d %s", t.signed, t.bits, isNum, cv.CoqBytes([]byte(text)), den, canonical, oracleTable(strs), c, digCoq(dig))
-	h.w.Add(term, docDesc{Kind: "num", Gen: gen, Doc: short(doc), Hex: hex.EncodeToString(doc), Len: len(doc), Type: t.name(), Text: text, Denotes: dens,
+	h.w.Add(term, docDesc{Kind: "num", Gen: gen, Doc: short(doc), Hex: hex.EncodeToString(doc), Len: len(doc), Type: t.name(), Text: text, Denotes: dens, IsNum: isNum, Canon: canonical,
 		Impl: fmt.Sprintf("class=%d digest=%s %s", c, hex.EncodeToString(dig), msg)})
 	_ = dens
 	if h.nsample < 24 && gen == "canonical" && denotes != nil && denotes.BitLen() > 52 && h.nsample%2 == 0 {
